@@ -92,4 +92,45 @@ let handle (cmd : string) (rest : string) : string =
         | ServeConn i -> Printf.sprintf "serve:%d" (int_of_nat i)
         | CloseLate i -> Printf.sprintf "late:%d" (int_of_nat i) in
       String.concat "," (List.map show_act acts) ^ "|" ^ (match res with RNil -> "nil" | RErr -> "err" | RRunning -> "running")
+  | "client" | "clientdv" ->
+      (* client conn=1 rt=0 wt=1 ver=1.4 op=<hex> | <payload val or offer> | <reply hex> *)
+      (match String.split_on_char '|' rest with
+       | [ c; pl; reply ] ->
+           let kv = List.map (fun t -> split1 (String.map (fun ch -> if ch = '=' then ' ' else ch) t)) (split_on ' ' (String.trim c)) in
+           let get k d = try List.assoc k kv with Not_found -> d in
+           let ver = match String.split_on_char '.' (get "ver" "1.4") with
+             | [a; b] -> (z_of_int (int_of_string a), z_of_int (int_of_string b)) | _ -> failwith "ver" in
+           let cc = { cc_connected = get "conn" "1" = "1"; cc_read_to = get "rt" "0" = "1"; cc_write_to = get "wt" "0" = "1"; cc_version = ver } in
+           let show_ev = function CArmWrite -> "armw" | CArmRead -> "armr" | CSent b -> "sent:" ^ hex_of_bytes b in
+           let evs_s evs = String.concat "," (List.map show_ev evs) in
+           let reply = bytes_of_hex (String.trim reply) in
+           if cmd = "client" then begin
+             let (evs, r) = inst_send cc (n_of_hex (get "op" "0")) (val_of_string (String.trim pl)) reply in
+             evs_s evs ^ " => " ^ (match r with
+               | SPayload v -> "payload " ^ show_val v
+               | SServerError (reason, m) -> Printf.sprintf "srverr %s %s" (hex_of_n reason) (hex_of_bytes m)
+               | SError -> "err")
+           end else begin
+             let offer = List.map (fun p -> match String.split_on_char '.' p with
+                 | [a; b] -> (z_of_int (int_of_string a), z_of_int (int_of_string b)) | _ -> failwith "version")
+                 (split_on ',' (String.trim pl)) in
+             let (evs, r) = inst_discover_versions cc offer reply in
+             evs_s evs ^ " => " ^ (match r with
+               | DVVersions vs -> "versions " ^ String.concat "," (List.map (fun (a, b) -> Printf.sprintf "%d.%d" (int_of_z a) (int_of_z b)) vs)
+               | DVServerError (reason, m) -> Printf.sprintf "srverr %s %s" (hex_of_n reason) (hex_of_bytes m)
+               | DVError -> "err")
+           end
+       | _ -> "driver-error client syntax")
+  | "tls" ->
+      (* tls server|client <maxversion hex> <cert> <plaintext 0|1> *)
+      (match split_on ' ' rest with
+       | [ role; mv; ck; pt ] ->
+           let cert = (match ck with "none" -> CertNone | "valid" -> CertValid | "selfsigned" -> CertSelfSigned
+                                   | "otherca" -> CertOtherCA | "expired" -> CertExpired | "wronghost" -> CertWrongHost | _ -> failwith "cert") in
+           let p = { max_version = n_of_hex mv; cert = cert; plaintext = pt = "1" } in
+           let cfg = if role = "server" then inst_server_tls else inst_client_tls in
+           (match cfg with
+            | None -> "config-not-understood"
+            | Some c -> if (if role = "server" then server_handshake_ok c p else client_handshake_ok c p) then "admitted" else "refused")
+       | _ -> "driver-error tls syntax")
   | _ -> "unknown-command " ^ cmd
